@@ -970,3 +970,26 @@ for _i in [1, 2, 3, 4, 5, 6, 7, 8, 10, 11, 12, 13, 14, 15, 16, 17, 18, 19, 20]:
     VARIANTS.append(dict(id="unrelated-module-c%02d" % _i, prop="C%02d" % _i, expect="silent", rule=None,
                          edits=[("@newfile", "sempler/metrics.py", NEW_MODULE)],
                          what="a new unrelated module sempler/metrics.py (dataclass, walrus, match, keyword-only args)"))
+
+# ------------------------------------------------------------------------------- every rule fires at least once: variants for rules no other entry exercised (group 1)
+V("d-c18-bin-add", "C18", "fire", UT, "    supergraph = A.copy()\n    i = 0\n", "    supergraph = np.abs(A.copy())\n    i = 0\n", rule="BIN.add", what="working graph is not a plain copy of the pattern", accept_inconclusive=True)
+V("d-c18-cand-two-stores", "C18", "fire", UT, "        next_supergraph[edges[i]] = 1\n", "        next_supergraph[edges[i]] = 1\n        next_supergraph[edges[i][::-1]] = 0\n", rule="CAND.store", what="the candidate is edited twice")
+V("d-c15-cc-matrix", "C15", "fire", UT, "            to_visit = (to_visit | neighbors(j, A)) - visited\n", "            to_visit = (to_visit | neighbors(j, G.T)) - visited\n", rule="CC.matrix", what="neighbours taken in another matrix", accept_inconclusive=True)
+V("d-c15-cc-start", "C15", "fire", UT, "    visited = set()\n    to_visit = {i}\n", "    visited = set()\n    to_visit = neighbors(i, A)\n", rule="CC.start", what="search starts from the neighbours: an isolated node has an empty component")
+V("d-c15-cc-transitive", "C15", "fire", UT, "            to_visit = (to_visit | neighbors(j, A)) - visited\n", "            to_visit = (to_visit | neighbors(i, A)) - visited\n", rule="CC.transitive", what="only the neighbours of the start node are followed")
+V("d-c12-choice-recorded", "C12", "fire", GE, "            intervention = list(rng.choice(targets, size=sizes[i], replace=False))\n            interventions.append(intervention)\n", "            intervention = list(rng.choice(targets, size=sizes[i], replace=False))\n            interventions.append(sorted(set(intervention))[:1])\n", rule="CHOICE.recorded", what="something else than the draw is recorded")
+V("d-c20-null-nonzero", "C20", "fire", FU, "def null(*args):\n    return 0", "def null(*args):\n    return 0 if not args else 0 * args[0]", rule="CONST.null", what="null is no longer the constant 0", accept_inconclusive=True)
+V("d-c19-store-before-checks", "C19", "fire", SE, "        if not isinstance(data, list):\n            raise TypeError(_DATA_TYPE_ERROR)\n", "        self.graph = (graph != 0).astype(int)\n        if not isinstance(data, list):\n            raise TypeError(_DATA_TYPE_ERROR)\n", rule="CONTRACT.before-stores", what="an attribute is stored before the data checks")
+V("d-c19-delegation-late", "C19", "fire", SE, "        super().__init__(graph, data, verbose)\n", "        self._random_forests = None\n        super().__init__(graph, data, verbose)\n", rule="CONTRACT.delegated-init", what="state is set before the argument checks of the base class ran")
+V("d-c12-one-loop", "C12", "fire", GE, "    if replace:\n        interventions = []\n        targets = list(range(p))\n        for i, k in enumerate(range(K)):\n            intervention = list(rng.choice(targets, size=sizes[i], replace=False))\n            interventions.append(intervention)\n    else:\n",
+  "    if replace:\n        interventions = [list(rng.choice(list(range(p)), size=sizes[i], replace=False)) for i in range(K)]\n    else:\n", rule="COUNT.loops", what="one of the two sampling loops replaced by a comprehension", accept_inconclusive=True)
+V("d-c05-ctor-roles", "C05", "fire", ND, "        self.mean = mean.copy()\n        self.covariance = covariance.copy()\n", "        self.mean = np.diag(covariance).copy()\n        self.covariance = covariance.copy()\n", rule="CTOR.roles", what="mean attribute filled from the covariance")
+V("d-c03-precheck-false-rejection", "C03", "fire", UT, "    if only_undirected(A).sum() > 0:\n        raise ValueError(\"The given graph is not a DAG\")", "    if np.tril(A).sum() > 0:\n        raise ValueError(\"The given graph is not a DAG\")", rule="CYCLES", what="pre-check rejects every graph with an edge from a higher to a lower index", accept_inconclusive=True)
+V("d-c10-empty-I-touches", "C10", "fire", UT, "    for i in I:\n        directed_edges += [(i, j) for j in ch(i, G)]\n        directed_edges += [(j, i) for j in pa(i, G)]\n", "    for i in range(len(G)):\n        directed_edges += [(i, j) for j in ch(i, G)]\n        directed_edges += [(j, i) for j in pa(i, G)]\n", rule="DEPENDS", what="every node treated as a target: I is ignored")
+V("d-c08-extension-no-raise", "C08", "fire", UT, "            raise ValueError(\"PDAG %s does not admit consistent extension\" % oP)", "            return G", rule="EXTENSION.raises", what="no ValueError when no sink is found", accept_inconclusive=True)
+V("d-c17-two-appends", "C17", "fire", UT, "            folds[i].append(fold_sample)\n", "            folds[i].append(fold_sample)\n            folds[i].append(fold_sample[:0])\n", rule="FLOW.append", what="two appends per fold")
+V("d-c17-outer-reversed", "C17", "fire", UT, "    for sample in data:\n        n = len(sample)\n", "    for sample in data[::-1]:\n        n = len(sample)\n", rule="FLOW.environments", what="environments visited in reverse order: folds list them reversed")
+V("d-c04-seed-not-forwarded", "C04", "fire", LG, "            return distribution.sample(n, random_state=random_state)\n", "            return distribution.sample(n)\n", rule="FORWARD.seed", what="seed dropped on the way to the sampler")
+V("d-c03-anm-stores-other", "C03", "fire", AN, "        self.A = deepcopy(A)\n", "        self.A = deepcopy(np.triu(A))\n", rule="GATE.anm.stored", what="the stored matrix is not the checked one")
+V("d-c03-drfnet-no-delegation", "C03", "fire", SE, "        super().__init__(graph, data, verbose)\n", "        if verbose:\n            super().__init__(graph, data, verbose)\n        else:\n            self.graph, self._data, self.p, self.e = graph, data, graph.shape[1], len(data)\n", rule="GATE.drfnet", what="checks of the base class only run in verbose mode", accept_inconclusive=True)
+V("d-c10-extension-swallowed", "C10", "fire", UT, "    try:\n        pdag_to_dag(P)\n    except ValueError as e:\n        raise e\n", "    try:\n        pdag_to_dag(P)\n    except ValueError as e:\n        pass\n", rule="GUARD.extension", what="missing extension no longer raises")
